@@ -22,6 +22,7 @@ import GoblVerif.Spec.C17
 import GoblVerif.Proofs.CalcNeg
 import GoblVerif.Proofs.CalcPerm
 import GoblVerif.Proofs.CalcInvert
+import GoblVerif.Proofs.CalcGroups
 
 namespace GoblVerif.Props.C17
 open GoblVerif GoblVerif.Calc
@@ -115,6 +116,14 @@ theorem lines_independent (cur : String) (c : ℕ) (rates : List XRate) (r : Rul
         | succ j =>
           simp only [List.getElem_cons_succ]
           exact i2 j (by simpa using hi) (by simpa using ho)
+
+/-- **Reordering rows changes no tax group base.**  For any permutation of the taxable rows (lines,
+document discounts, document charges) and any group key, the base accumulated for that key in that
+category is the same; with `Props.C02.group_amount` the group's amount is a function of that base. -/
+theorem group_base_perm_invariant (r : Rule) (c : ℕ) (cat : String) (k : Key) (rows rows' : List Row)
+    (h : rows.Perm rows') :
+    catGroupBase cat k (baseRateTotals exactOps r c rows) = catGroupBase cat k (baseRateTotals exactOps r c rows') :=
+  baseRateTotals_group_perm r c cat k rows rows' h
 
 /-! ## the whole document under `Invert` -/
 
